@@ -137,7 +137,7 @@ def _rust_char(lit):
 
 def _rust_bool_to_coq(expr):
     """a boolean expression over `ch`: char literals, ==, <=, ||, &&, parentheses -> Coq bool term over (ch : N), or None"""
-    toks = re.findall(r"'(?:\\.|[^\\'])'|\|\||&&|<=|==|\(|\)|ch|\S", expr)
+    toks = re.findall(r"'(?:\\.|[^\\'])'|\|\||&&|<=|==|\(|\)|[A-Za-z_][A-Za-z_0-9]*|\S", expr)
     pos = [0]
     def peek(): return toks[pos[0]] if pos[0] < len(toks) else None
     def eat():
@@ -148,6 +148,11 @@ def _rust_bool_to_coq(expr):
             eat(); e = disj()
             if eat() != ")": raise ValueError
             return "(" + e + ")"
+        if re.fullmatch(r"is_\w+_char", t or ""):
+            # a call of another character-class helper on the same character
+            eat()
+            if (eat(), eat(), eat()) != ("(", "ch", ")"): raise ValueError
+            return "(impl_%s ch)" % t
         a = eat(); op = eat(); b = eat()
         def val(x):
             if x == "ch": return "ch"
@@ -201,12 +206,15 @@ def gen_impl_chars():
     src = open(os.path.join(REPO, "src", "tokenizer.rs"), encoding="utf-8").read()
     ok = True
     defs = []
-    for fn in ("is_digit_char", "is_whitespace_char", "is_delim_char", "is_param_char"):
+    for fn in ("is_digit_char", "is_whitespace_char", "is_delim_char", "is_param_char", "is_word_end_char"):
         m = re.search(r"fn\s+%s\s*\(ch:\s*char\)\s*->\s*bool\s*\{\s*return\s+(.*?);\s*\}" % fn, src, re.S)
         e = _rust_bool_to_coq(" ".join(m.group(1).split())) if m else None
         if e is None:
             ok = False; e = "false"
         defs.append("Definition impl_%s (ch : N) : bool := %s." % (fn, e))
+    # both loops that delimit an operator word (try_parse_op, operator_token) stop at is_word_end_char
+    if len(re.findall(r"if\s+is_word_end_char\(ch\)\s*\{\s*break;", src)) != 2:
+        ok = False
     # the arms of next(): Some((start, PATTERN)) => self.HANDLER(start)
     body = re.search(r"self\.cur_token\s*=\s*match\s+self\.next_one\(\)\s*\{(.*?)\}\?;", src, re.S)
     arms = []
